@@ -568,15 +568,36 @@ func derefConfig(opts *options, val value) (value, func()) {
 	return val, done
 }
 
+// isPrimitiveTarget: the target takes a single primitive value. A reference
+// found there is evaluated where it is converted, so that a reference to an
+// object is reported as the wrong typed setting it is - with the path and the
+// source of the setting holding the reference, not of the object referred to.
+func isPrimitiveTarget(t reflect.Type) bool {
+	if t == tRegexp {
+		return true
+	}
+	switch t.Kind() {
+	case reflect.Bool, reflect.String,
+		reflect.Int, reflect.Int8, reflect.Int16, reflect.Int32, reflect.Int64,
+		reflect.Uint, reflect.Uint8, reflect.Uint16, reflect.Uint32, reflect.Uint64,
+		reflect.Float32, reflect.Float64:
+		return true
+	}
+	return false
+}
+
 func reifyValue(
 	opts fieldOptions,
 	t reflect.Type,
 	val value,
 ) (reflect.Value, Error) {
-	val, done := derefConfig(opts.opts, val)
-	defer done()
-
 	baseType := chaseTypePointers(t)
+	if !isPrimitiveTarget(baseType) {
+		var done func()
+		val, done = derefConfig(opts.opts, val)
+		defer done()
+	}
+
 	if baseType.Kind() == reflect.Interface && baseType.NumMethod() == 0 {
 		reified, err := val.reify(opts.opts)
 		if err != nil {
@@ -679,11 +700,14 @@ func reifyMergeValue(
 	opts fieldOptions,
 	oldValue reflect.Value, val value,
 ) (reflect.Value, Error) {
-	val, done := derefConfig(opts.opts, val)
-	defer done()
-
 	old := chaseValueInterfaces(oldValue)
 	t := old.Type()
+	if !isPrimitiveTarget(chaseTypePointers(t)) {
+		var done func()
+		val, done = derefConfig(opts.opts, val)
+		defer done()
+	}
+
 	ptr := old
 	old = chaseValuePointers(old)
 	if (old.Kind() == reflect.Ptr || old.Kind() == reflect.Interface) && old.IsNil() {
